@@ -25,7 +25,52 @@ import (
 // The router rounds also stand for the properties that are about what a Router does with its handlers.
 func TestRaceC01(t *testing.T) { routerRounds(t, 60) }
 func TestRaceC08(t *testing.T) { routerRounds(t, 60) }
-func TestRaceC09(t *testing.T) { routerRounds(t, 60) }
+func TestRaceC09(t *testing.T) {
+	routerRounds(t, 60)
+	// middlewares registered from several goroutines at once (the registration is lock-protected for that):
+	// none is lost
+	for round := 0; round < 30; round++ {
+		atomic.AddInt64(&iterations, 1)
+		g := gochannel.NewGoChannel(gochannel.Config{OutputChannelBuffer: 4}, watermill.NopLogger{})
+		r, _ := message.NewRouter(message.RouterConfig{CloseTimeout: 5 * time.Second}, watermill.NopLogger{})
+		var ran [2]int32
+		hs := []*message.Handler{
+			r.AddNoPublisherHandler("a", "ta", g, func(*message.Message) error { return nil }),
+			r.AddNoPublisherHandler("b", "tb", g, func(*message.Message) error { return nil }),
+		}
+		parallel(t, 4, "middleware registrations", func(i int) {
+			k := i % 2
+			for j := 0; j < 10; j++ {
+				hs[k].AddMiddleware(func(next message.HandlerFunc) message.HandlerFunc {
+					return func(m *message.Message) ([]*message.Message, error) {
+						atomic.AddInt32(&ran[k], 1)
+						return next(m)
+					}
+				})
+			}
+		})
+		var wg sync.WaitGroup
+		wg.Add(1)
+		go func() { defer wg.Done(); _ = r.Run(context.Background()) }()
+		select {
+		case <-r.Running():
+		case <-time.After(10 * time.Second):
+			t.Log("racepass: router did not start")
+			continue
+		}
+		_ = g.Publish("ta", message.NewMessage("1", nil))
+		_ = g.Publish("tb", message.NewMessage("2", nil))
+		for i := 0; i < 300 && (atomic.LoadInt32(&ran[0]) < 20 || atomic.LoadInt32(&ran[1]) < 20); i++ {
+			time.Sleep(time.Millisecond)
+		}
+		if a, b := atomic.LoadInt32(&ran[0]), atomic.LoadInt32(&ran[1]); a != 20 || b != 20 {
+			t.Errorf("round %d: 20 middlewares were registered on each handler (from two goroutines each), %d and %d ran", round, a, b)
+		}
+		_ = r.Close()
+		waitOrGiveUp(t, &wg, "router")
+		_ = g.Close()
+	}
+}
 
 // parallel calls f from n goroutines released together.
 func parallel(t *testing.T, n int, what string, f func(i int)) {
@@ -313,8 +358,46 @@ func fanOutRounds(t *testing.T, n int) {
 	}
 }
 
+// the handler metrics middleware under overlapping invocations with different outcomes
+func handlerMetricsRounds(t *testing.T, n int) {
+	for round := 0; round < n; round++ {
+		atomic.AddInt64(&iterations, 1)
+		reg := prometheus.NewRegistry()
+		mb := metrics.NewPrometheusMetricsBuilder(reg, "ns", "sub")
+		h := mb.NewRouterMiddleware().Middleware(func(m *message.Message) ([]*message.Message, error) {
+			if m.UUID[0]%2 == 1 {
+				return nil, errFlaky
+			}
+			return nil, nil
+		})
+		parallel(t, 6, "metered handler invocations", func(i int) { _, _ = h(message.NewMessage(fmt.Sprint(i), []byte("x"))) })
+		mfs, err := reg.Gather()
+		if err != nil {
+			t.Fatal(err)
+		}
+		ok, failed := 0, 0
+		for _, mf := range mfs {
+			for _, m := range mf.GetMetric() {
+				for _, l := range m.GetLabel() {
+					if l.GetName() == "success" && m.GetHistogram() != nil {
+						if l.GetValue() == "true" {
+							ok += int(m.GetHistogram().GetSampleCount())
+						} else {
+							failed += int(m.GetHistogram().GetSampleCount())
+						}
+					}
+				}
+			}
+		}
+		if ok != 3 || failed != 3 {
+			t.Errorf("round %d: 3 successful and 3 failed overlapping invocations, recorded success=true:%d false:%d", round, ok, failed)
+		}
+	}
+}
+
 func TestRaceC20(t *testing.T) {
 	defer report(t)
+	handlerMetricsRounds(t, 40)
 	for round := 0; round < 40; round++ {
 		atomic.AddInt64(&iterations, 1)
 		g := gochannel.NewGoChannel(gochannel.Config{OutputChannelBuffer: 8}, watermill.NopLogger{})
